@@ -283,23 +283,24 @@ func (x *executor) applyContract(m *machine, fr *frame, in ssa.Instruction, res 
 		x.oblige(m, "decreases", cname, tFalse, nil, "recursive call needs a decreases clause")
 	}
 	pre := st.clone()
-	// havoc
+	// havoc: all targets are evaluated in the pre-state first
+	var targets []modTarget
 	for _, cl := range fc.modifies {
 		ev.where = cl.line
-		// abstract-state targets: an interface-typed expression refreshes that interface's token
-		v := ev.eval(cl.e)
-		if _, isIface := v.typ.Underlying().(*types.Interface); isIface {
-			x.refreshToken(st, typeKeyShort(v.typ))
-			continue
-		}
-		mt := x.modTargetOf(ev, cl.e)
+		targets = append(targets, x.modTargetOf(ev, cl.e))
+	}
+	for _, mt := range targets {
 		if mt.iface != "" {
 			x.refreshToken(st, mt.iface)
 			continue
 		}
 		// the caller must itself be allowed to modify it
 		x.checkFrameRef(m, fr, in, mt.heap, mt.sort, mt.ref)
-		x.havocTarget(st, mt)
+	}
+	for _, mt := range targets {
+		if mt.iface == "" {
+			x.havocTarget(st, mt)
+		}
 	}
 	// results
 	var rs []Val
@@ -357,6 +358,14 @@ func (x *executor) applyContract(m *machine, fr *frame, in ssa.Instruction, res 
 		default:
 			ev2.fail("fresh target must be a slice or a pointer")
 		}
+	}
+	for _, cl := range fc.reallocs {
+		ev2.where = cl.line
+		nv := ev2.eval(cl.e)
+		evOld := *ev2
+		evOld.st = pre
+		ov := evOld.eval(cl.e)
+		st.assume(mkOr(mkEq(c.slRef(nv.t), c.slRef(ov.t)), mkEq(c.slRef(nv.t), c.freshRef(st))))
 	}
 	for _, cl := range fc.ensures {
 		ev2.where = cl.line
